@@ -14,7 +14,7 @@ class C06(ProgramProperty):
             "canonical prefix that contains the delimiter, known finding K1) with 4 prefixes, 5 CURIEs and 5 URIs "
             "(known / unknown / synonym / case variant); every function is applied to its own output (phase 2) "
             "and expand / compress are compared before and after standardisation. Non-trivial = some input "
-            "is changed by standardisation (it was written with a synonym).")
+            "is changed by standardisation (it was written with a synonym). Converters are built directly or through histories (queried, extended with new records and merges, a rejected call whose would-be names are probed afterwards).")
 
     def gen(self, rng, tier):
         delim = rng.choice(gen.DELIMS)
